@@ -2,6 +2,7 @@ import Thanos.Common.Parse
 import Thanos.Model.Split
 import Thanos.Model.CacheKey
 import Thanos.Model.ResultsCache
+import Thanos.Model.Sharding
 /-
   Line-protocol driver of the `frontend` family (C41 C42 C43 C44).
   One request per line, one answer per line; every line is self-contained.
@@ -21,6 +22,10 @@ import Thanos.Model.ResultsCache
 
   C42 op (grammar in harness/cmd/frontend/c42.go):
     cache.hist <align 0|1> <splitMs> <data> <reqs>   -> <resp>|<resp>|…
+
+  C44 ops (grammar in harness/cmd/frontend/c44.go):
+    shard.analyze E                                            -> none | by:<l,l> | without:<l,l>
+    shard.match <total> <by> <shardLabels> <series> <hash>     -> <indices>
 -/
 open Thanos Thanos.Parse
 
@@ -202,6 +207,102 @@ def handleC42 : List String → String
 
 end C42
 
+/-! ### C44 -/
+section C44
+open Sharding
+
+def pS (t : String) : Option String := hexString? t
+
+def pSList (t : String) : Option (List String) :=
+  (listOf ',' t).mapM fun e => if e = "_" then some "" else pS e
+
+/-- prefix-form expression parser; `fuel` bounds the recursion (tokens are consumed) -/
+def pExpr : Nat → List String → Option (Expr × List String)
+  | 0, _ => none
+  | fuel + 1, toks =>
+    match toks with
+    | "sel" :: t :: rest => do pure (.sel (← pS t), rest)
+    | "num" :: t :: rest => do pure (.num (← pS t), rest)
+    | "str" :: t :: rest => do pure (.str (← pS t), rest)
+    | "mat" :: t :: r :: rest => do pure (.mat (← pS t) (← pS r), rest)
+    | "par" :: rest => do
+      let (e, rest) ← pExpr fuel rest
+      pure (.par e, rest)
+    | "sub" :: rest => do
+      let (e, rest) ← pExpr fuel rest
+      match rest with
+      | r :: rest => pure (.sub e (← pS r), rest)
+      | [] => none
+    | "agg" :: op :: mode :: labels :: np :: rest => do
+      let op ← pS op
+      let mode ← (if mode = "by" then some Mode.by_ else if mode = "without" then some Mode.without
+                  else if mode = "none" then some Mode.none else none)
+      let labels ← pSList labels
+      if np = "1" then
+        let (p, rest) ← pExpr fuel rest
+        let (e, rest) ← pExpr fuel rest
+        pure (.agg op mode labels (some p) e, rest)
+      else if np = "0" then
+        let (e, rest) ← pExpr fuel rest
+        pure (.agg op mode labels none e, rest)
+      else none
+    | "bin" :: op :: m :: labels :: card :: incl :: bm :: rest => do
+      let op ← pS op
+      let m ← (if m = "on" then some Match.on else if m = "ignoring" then some Match.ignoring
+               else if m = "none" then some Match.none else none)
+      let labels ← pSList labels
+      let _ ← pSList incl
+      let _ ← pBool bm
+      if card ≠ "none" ∧ card ≠ "left" ∧ card ≠ "right" then none else
+      let (l, rest) ← pExpr fuel rest
+      let (r, rest) ← pExpr fuel rest
+      pure (.bin op m labels l r, rest)
+    | "call" :: name :: na :: rest => do
+      let name ← pS name
+      let na ← parseNat? na
+      if na > 6 then none else
+      let (args, rest) ← pArgs fuel na rest
+      pure (.call name args, rest)
+    | _ => none
+where
+  pArgs (fuel : Nat) : Nat → List String → Option (List Expr × List String)
+    | 0, rest => some ([], rest)
+    | n + 1, rest => do
+      let (e, rest) ← pExpr fuel rest
+      let (es, rest) ← pArgs fuel n rest
+      pure (e :: es, rest)
+
+def sortStrings (l : List String) : List String :=
+  ResultsCache.sortLt (fun a b => a < b) l
+
+def showAnalysis (a : Analysis) : String :=
+  if !isShardable a then "none" else
+  let ls := (sortStrings (a.labels.getD [])).eraseDups
+  (if a.by_ then "by:" else "without:") ++
+    joinWith "," (ls.map fun l => if l = "" then "_" else hexEncode l.toUTF8.toList)
+
+def pLset (t : String) : Option Labels :=
+  (listOf ',' t).mapM fun kv =>
+    match splitChar '=' kv with
+    | [k, v] => do pure (← pS k, ← pS v)
+    | _ => none
+
+def handleC44 : List String → String
+  | "shard.analyze" :: rest =>
+    match pExpr (rest.length + 1) rest with
+    | some (e, []) => showAnalysis (analyze e)
+    | _ => "bad-op"
+  | ["shard.match", total, by_, sl, series, hash] =>
+    match parseNat? total, pBool by_, pSList sl, pLset series, parseNat? hash with
+    | some total, some by_, some sl, some ls, some h =>
+      if total < 1 ∨ total > 64 then "bad-op" else
+      -- the series' labels are sorted by name on the Go side (labels.Labels); the hash of the projection is given
+      joinWith "," (((shardIndices total).filter fun i => shardMatches (fun _ => h) total i sl by_ ls).map toString)
+    | _, _, _, _, _ => "bad-op"
+  | _ => "bad-op"
+
+end C44
+
 def handle3 (op a c d : String) : String :=
   if op = "split.nib" then
     match parseInt? a, parseInt? c, parseInt? d with
@@ -220,6 +321,9 @@ def handle3 (op a c d : String) : String :=
   else "bad-op"
 
 def handle : List String → String
+  | "cache.hist" :: rest => handleC42 ("cache.hist" :: rest)
+  | "shard.analyze" :: rest => handleC44 ("shard.analyze" :: rest)
+  | "shard.match" :: rest => handleC44 ("shard.match" :: rest)
   | ["split.range", a, b, c, d] =>
     match parseInt? a, parseInt? b, parseInt? c, parseInt? d with
     | some start, some stop, some step, some iv =>
@@ -233,7 +337,6 @@ def handle : List String → String
         if dur ≤ 0 then "bad-op" else showSplit (Split.splitLabels true start stop dur)
       | _, _, _ => "bad-op"
     else handle3 op a b d
-  | "cache.hist" :: rest => handleC42 ("cache.hist" :: rest)
   | l => handleC43 l
 
 end Thanos.Driver.Frontend
